@@ -25,6 +25,8 @@ pub enum Tok {
     I64(i64),
     End,
     Other(&'static str),
+    /// transport shorthand for this many consecutive `U32(0)` elements (only used for values too long to hold as a token vector)
+    ZeroRun(u64),
 }
 
 #[derive(Debug, Clone, PartialEq)]
@@ -57,9 +59,23 @@ pub struct Tape {
     pub fail_at: Option<usize>,
     pub fired: bool,
     pub human: bool,
+    /// streaming peer: zero digits are counted instead of stored (`toks` then holds every other token, and
+    /// `zeros_before[i]` the number of zero digits seen before `toks[i]`)
+    pub fold: bool,
+    pub zeros: u64,
+    pub zeros_before: Vec<u64>,
 }
 impl Tape {
     fn emit(&mut self, t: Tok) -> Result<(), SimErr> {
+        if self.fold {
+            if t == Tok::U32(0) {
+                self.zeros += 1;
+            } else if self.toks.len() < 4096 {
+                self.toks.push(t);
+                self.zeros_before.push(self.zeros);
+            }
+            return Ok(());
+        }
         if self.fail_at == Some(self.toks.len()) && !self.fired {
             self.fired = true;
             return Err(SimErr::Injected(self.toks.len()));
@@ -212,6 +228,8 @@ pub struct Feed {
     /// a non-self-describing peer: the `deserialize_*` method called must match what was written
     /// (a tuple must be requested as a tuple, a sequence as a sequence, a number as a number)
     pub strict: bool,
+    /// elements of the current `ZeroRun` token already delivered
+    pub run_done: u64,
 }
 #[derive(Clone, Copy, Debug, PartialEq)]
 pub enum HintMode {
@@ -229,12 +247,35 @@ impl Feed {
             return Err(SimErr::Injected(self.reads));
         }
         self.reads += 1;
+        self.skip_spent_run();
         let t = self.toks.get(self.pos).cloned().ok_or(SimErr::Eof)?;
+        if let Tok::ZeroRun(_) = t {
+            self.run_done += 1;
+            return Ok(Tok::U32(0));
+        }
         self.pos += 1;
         Ok(t)
     }
+    fn skip_spent_run(&mut self) {
+        while let Some(Tok::ZeroRun(k)) = self.toks.get(self.pos) {
+            if self.run_done < *k {
+                break;
+            }
+            self.pos += 1;
+            self.run_done = 0;
+        }
+    }
     fn peek(&self) -> Option<&Tok> {
-        self.toks.get(self.pos)
+        let mut pos = self.pos;
+        let mut done = self.run_done;
+        while let Some(Tok::ZeroRun(k)) = self.toks.get(pos) {
+            if done < *k {
+                break;
+            }
+            pos += 1;
+            done = 0;
+        }
+        self.toks.get(pos)
     }
     /// number of elements up to the matching End from the current position (depth-aware)
     fn remaining_in_seq(&self) -> usize {
@@ -326,6 +367,7 @@ impl<'de, 'a> Deserializer<'de> for TokDe<'a> {
             }
             Tok::End => Err(SimErr::Custom("unexpected end of sequence".into())),
             Tok::Other(n) => Err(SimErr::Custom(format!("unsupported token {n}"))),
+            Tok::ZeroRun(_) => Err(SimErr::Custom("harness: zero run not expanded".into())),
         }
     }
     fn deserialize_seq<V: Visitor<'de>>(self, visitor: V) -> Result<V::Value, SimErr> {
@@ -392,6 +434,9 @@ fn ser_tokens_h<T: Serialize>(v: &T, fail_at: Option<usize>, human: bool) -> (Re
         fail_at,
         fired: false,
         human,
+        fold: false,
+        zeros: 0,
+        zeros_before: vec![],
     });
     let r = v.serialize(TokSer(&tape));
     let t = tape.into_inner();
@@ -433,6 +478,7 @@ pub fn de_tokens_with<'de, T: serde::Deserialize<'de> + 'static>(
         deliver,
         human,
         strict: STRICT.with(|c| c.get()),
+        run_done: 0,
     });
     let r = match in_place {
         Some(mut place) => match T::deserialize_in_place(TokDe(&feed), &mut place) {
@@ -531,6 +577,13 @@ fn gen_hint(rng: &mut Prng) -> i128 {
 pub fn gen(rng: &mut Prng, plan: &mut Plan) {
     let thorough = plan.tier == "thorough";
     plan.cfg = Step::new("cfg");
+    if plan.index == 0 {
+        // one exchange per batch with a value of 2^32 bits or more (half a gibibyte of digits): the element count
+        // no longer fits the 32-bit quantities the digits themselves are made of
+        let e = (1u64 << 32) - 1 + *rng.pick(&[0u64, 1, 32, 33, 64]);
+        plan.steps.push(Step::new("giant").i("e", e as i128).i("low", rng.range(1, 1000) as i128).i("neg", rng.below(2) as i128).i("de", thorough as i128));
+        return;
+    }
     let n = rng.range(1, 6);
     for _ in 0..n {
         let huge = thorough && rng.chance(1, 30);
@@ -990,6 +1043,63 @@ pub fn exec(plan: &Plan) -> RunResult {
                 res.cover.insert(fnv(
                     format!("de_i|{}|{}|s{}|{fault}|m{mismatch}|h{hint_kind}", len_class(d.len()), d.len() % 2, sign.clamp(-2, 2)).as_bytes(),
                 ));
+            }
+            "giant" => {
+                let e = s.u64("e");
+                let low = s.u64("low") as u32;
+                let neg = s.int("neg") != 0;
+                if e < 64 || low == 0 {
+                    // outside what the oracle below describes (the two non-zero digits would merge or vanish)
+                    continue;
+                }
+                let words = e / 32 + 1; // u32 digits of 2^e + low
+                let top = 1u32 << (e % 32);
+                let mut want = vec![Tok::Tuple(2), Tok::I8(if neg { -1 } else { 1 }), Tok::Seq(Some(words as usize)), Tok::U32(low), Tok::U32(top), Tok::End, Tok::End];
+                let want_before = vec![0, 0, 0, 0, words - 2, words - 2, words - 2];
+                let out = catch(|| {
+                    let u = (BigUint::from(1u8) << e) + low;
+                    let x = BigInt::from_biguint(if neg { Sign::Minus } else { Sign::Plus }, u);
+                    let tape = RefCell::new(Tape { toks: vec![], fail_at: None, fired: false, human: false, fold: true, zeros: 0, zeros_before: vec![] });
+                    let r = x.serialize(TokSer(&tape));
+                    (r, tape.into_inner())
+                });
+                let (r, tape) = match out {
+                    Ok(t) => t,
+                    Err(m) => bad!("panic", "BigInt::serialize", "value 2^{e} + {low}: {m}"),
+                };
+                if let Err(e2) = r {
+                    bad!("ser-error", "BigInt::serialize", "value 2^{e} + {low}: {e2}");
+                }
+                if tape.toks != want || tape.zeros_before != want_before {
+                    bad!("ser-model", "BigInt::serialize", "value {}(2^{e} + {low}): non-zero tokens {:?} with {:?} zero digits before each; want {:?} with {:?}", if neg { "-" } else { "" }, &tape.toks[..tape.toks.len().min(12)], &tape.zeros_before[..tape.zeros_before.len().min(12)], want, want_before);
+                }
+                dg.u64(tape.zeros);
+                res.fault("size.giant");
+                if s.int("de") != 0 {
+                    want.insert(5, Tok::ZeroRun(words - 2));
+                    want.swap(4, 5);
+                    let out = catch(|| {
+                        let (r, feed) = de_tokens_with::<BigInt>(want.clone(), HintMode::NoneHint, None, 0, false, None);
+                        r.map(|x| (x.sign(), x.bits(), x.magnitude().trailing_zeros(), x.magnitude().count_ones(), (x.magnitude() % 4096u32).to_u32_digits(), feed.reads))
+                    });
+                    match out {
+                        Err(m) => bad!("panic", "BigInt::deserialize", "value 2^{e} + {low}: {m}"),
+                        Ok(Err(e2)) => bad!("de-error", "BigInt::deserialize", "value 2^{e} + {low}: {e2}"),
+                        Ok(Ok((sg, bits, tz, ones, lowd, _reads))) => {
+                            let ok = sg == (if neg { Sign::Minus } else { Sign::Plus })
+                                && bits == e + 1
+                                && tz == Some(low.trailing_zeros() as u64)
+                                && ones == 1 + low.count_ones() as u64
+                                && lowd == vec![low];
+                            if !ok {
+                                bad!("roundtrip", "BigInt::deserialize", "value 2^{e} + {low}: got sign {sg:?}, {bits} bits, {ones} one bits, low digits {lowd:?}");
+                            }
+                            dg.u64(bits);
+                        }
+                    }
+                }
+                res.nontrivial = true;
+                res.cover.insert(fnv(format!("giant|{}|{neg}", e % 64).as_bytes()));
             }
             "multi" => {
                 let a = s.list32("a");
